@@ -575,7 +575,51 @@ func (f *Flow) evalStruct(t *Term, env Env, fl *evalFlags) ISet {
 			} else {
 				return f.top(t.T)
 			}
-		case token.AND:
+		case token.AND, token.OR, token.XOR, token.AND_NOT:
+			// exact on small operand sets (tag octets, kinds, header forms)
+			if ea, ok := a.Elems(256); ok {
+				if eb, ok := b.Elems(256); ok {
+					var rs ISet
+					for _, x := range ea {
+						for _, y := range eb {
+							var z int64
+							switch t.Op {
+							case token.AND:
+								z = x & y
+							case token.OR:
+								z = x | y
+							case token.XOR:
+								z = x ^ y
+							default:
+								z = x &^ y
+							}
+							rs = append(rs, IV{bi(z), bi(z)})
+						}
+					}
+					return f.fit(rs.norm(), t.T, fl)
+				}
+			}
+			if t.Op == token.OR {
+				// c | y with y inside the zero low bits of c is c + y
+				cst, o := a, b
+				if !(len(cst) == 1 && cst[0].Lo.Cmp(cst[0].Hi) == 0) {
+					cst, o = b, a
+				}
+				if len(cst) == 1 && cst[0].Lo.Cmp(cst[0].Hi) == 0 && cst[0].Lo.Sign() >= 0 && cst[0].Lo.IsInt64() && o.Min().Sign() >= 0 && o.Max().IsInt64() {
+					c := cst[0].Lo.Int64()
+					tz := int64(1)
+					for tz <= o.Max().Int64() {
+						tz <<= 1
+					}
+					if c&(tz-1) == 0 {
+						return f.fit(o.mapMono(func(x *big.Int) *big.Int { return new(big.Int).Add(x, cst[0].Lo) }), t.T, fl)
+					}
+				}
+				return f.top(t.T)
+			}
+			if t.Op != token.AND {
+				return f.top(t.T)
+			}
 			// x & mask with a non-negative constant mask
 			m, o := b, a
 			if !(len(m) == 1 && m[0].Lo.Cmp(m[0].Hi) == 0) {
